@@ -270,6 +270,10 @@ def _multipitch_fault(r, T, corrupt_freq=None, corrupt_time=None):
     return [("multipitch.metrics", a, {}), ("multipitch.evaluate", a, {})]
 
 
+def f_multipitch_time_2d(r, T):
+    return _multipitch_fault(r, T, corrupt_time=lambda t: np.asarray(t).reshape(-1, 1))
+
+
 def f_freq_too_low(r, T):
     return _multipitch_fault(r, T, corrupt_freq=r.choice([19.0, 1.0, 0.0]))
 
@@ -366,7 +370,7 @@ def f_hier_frame(r, T):
 def f_bad_chord_label(r, T):
     from . import chordgen
     bad = r.choice(["H:maj", "C:foo", "C:maj(", "C::min", "", "C/x", "c:maj", "N:maj",
-                    "C:maj/", "C:(3,)", "Cb#", "C:maj7(*)", "C maj"])
+                    "C:maj/", "C:(3,)", "Cb#", "C:maj7(*)", "C maj", "C(*3)"])
     n = r.randrange(1, 5)
     a = [chordgen.random_label(r) for _ in range(n)]
     b = list(a)
@@ -445,8 +449,19 @@ def f_alignment(r, T):
     a = T.gen_alignment(r)
     while a["ref"].size < 2:
         a = T.gen_alignment(r)
-    kind = r.choice(["unsorted", "2d", "negative", "empty", "list"])
+    kind = r.choice(["unsorted", "2d", "negative", "empty", "list", "est-2d", "ref-2d",
+                     "est-list", "ref-negative", "duration", "duration", "identical"])
     ref, est = a["ref"].copy(), a["est"].copy()
+    if kind in ("duration", "identical"):
+        # faults of percentage_correct_segments' own arguments
+        if kind == "identical":
+            ref = np.full(ref.size, float(ref[0]))
+            kw = {}
+        else:
+            top = float(max(ref.max(), est.max()))
+            kw = {"duration": r.choice([0.0, -1.0, top - 1 / 64.0,
+                                        float(min(ref.max(), est.max())) - 1 / 64.0])}
+        return [("alignment.percentage_correct_segments", (ref, est), kw)]
     if kind == "unsorted":
         if r.random() < 0.5:
             ref = _unsorted(ref)
@@ -459,6 +474,14 @@ def f_alignment(r, T):
         est.sort()
     elif kind == "empty":
         ref, est = np.array([]), np.array([])
+    elif kind == "est-2d":
+        est = est.reshape(-1, 1)
+    elif kind == "ref-2d":
+        ref = ref.reshape(-1, 1)
+    elif kind == "est-list":
+        est = list(est)
+    elif kind == "ref-negative":
+        ref = ref - (ref.max() + 1.0)
     else:
         ref = list(ref)
     fns = ["absolute_error", "percentage_correct", "percentage_correct_segments",
@@ -511,6 +534,7 @@ FAULTS = {
     "frequency-negative": (VALUE, f_freq_negative),
     "multipitch-times-unsorted": (VALUE, f_multipitch_time_unsorted),
     "multipitch-times-beyond-30000s": (VALUE, f_multipitch_time_huge),
+    "multipitch-times-not-1d": (VALUE, f_multipitch_time_2d),
     "voicing-outside-0-1": (VALUE, f_voicing_range),
     "negative-weight": (VALUE, f_negative_weight),
     "tempo-malformed": (VALUE, f_tempo),
